@@ -101,6 +101,40 @@ fn main() {
                 println!("VIOLATED #{}: {}", v.idx, v.msg);
             }
         }
+        "resetcmp" => {
+            // development aid: zverif resetcmp <level> <wbits> <memlevel> <n1> <flush2>: reset-after-n1-bytes vs fresh, both libraries
+            use api::*;
+            let a: Vec<i32> = args[2..].iter().map(|x| x.parse().unwrap()).collect();
+            let env = optree::OpEnv::new();
+            unsafe fn one<Zx: Z>(a: &[i32], data: &[u8], with_prefix: bool) -> Vec<u8> {
+                let mut s = Strm::plain();
+                assert_eq!(Zx::deflateInit2_(s.p(), a[0], 8, a[1], a[2], 0, Zx::zlibVersion(), STREAM_SIZE), Z_OK);
+                let n1 = a[3] as usize;
+                let mut out = vec![0u8; 8192];
+                if with_prefix {
+                    s.z.next_in = data.as_ptr() as *mut u8;
+                    s.z.avail_in = n1 as u32;
+                    s.z.next_out = out.as_mut_ptr();
+                    s.z.avail_out = 8192;
+                    Zx::deflate(s.p(), Z_NO_FLUSH);
+                    assert_eq!(Zx::deflateReset(s.p()), Z_OK);
+                }
+                s.z.next_in = data[n1..].as_ptr() as *mut u8;
+                s.z.avail_in = 300;
+                s.z.next_out = out.as_mut_ptr();
+                s.z.avail_out = 8192;
+                Zx::deflate(s.p(), a[4]);
+                let n = 8192 - s.z.avail_out as usize;
+                Zx::deflateEnd(s.p());
+                out.truncate(n);
+                out
+            }
+            unsafe {
+                for (name, reset, fresh) in [("zlib-rs", one::<Rs>(&a, &env.data, true), one::<Rs>(&a, &env.data, false)), ("zlib-ng", one::<Ng>(&a, &env.data, true), one::<Ng>(&a, &env.data, false))] {
+                    println!("{name}: reset == fresh: {} ({} / {} bytes)\n  reset {}\n  fresh {}", reset == fresh, reset.len(), fresh.len(), hex(&reset), hex(&fresh));
+                }
+            }
+        }
         "single" => {
             // development aid: zverif single <Cxx> <tier> <idx>
             let chk = checks::find(&args[2]).expect("prop");
